@@ -27,10 +27,18 @@ From Verif Require Export Base.
 (* ------------------------------------------------------------------------------------------ *)
 (* Part 1: symbolic dataflow                                                                    *)
 
-Inductive c04_kind := KNode | KEdge | KFace.
+(* element kinds, and — for the directions an expression is about — two further families of face
+   centres that the public mutator Grid.construct_face_centers can install in place of the
+   source's: KFaceMean (normalised mean of the corner nodes, method "cartesian average" when no
+   Cartesian centres are stored) and KFaceWelzl (the lon/lat returned by the randomised
+   smallest-enclosing-circle routine, method "welzl"; an opaque input of the model) *)
+Inductive c04_kind := KNode | KEdge | KFace | KFaceMean | KFaceWelzl.
 
 Definition c04_kind_eqb (a b : c04_kind) : bool :=
-  match a, b with KNode, KNode | KEdge, KEdge | KFace, KFace => true | _, _ => false end.
+  match a, b with
+  | KNode, KNode | KEdge, KEdge | KFace, KFace | KFaceMean, KFaceMean | KFaceWelzl, KFaceWelzl => true
+  | _, _ => false
+  end.
 
 (* what the source supplies for one element kind *)
 Inductive c04_prov := PNone | PLL | PXYZ | PBoth.
@@ -45,11 +53,16 @@ Record c04_case := {
   cs_sc_node : bool; cs_sc_edge : bool; cs_sc_face : bool }.
 
 Definition c04_prov_of (c : c04_case) (k : c04_kind) : c04_prov :=
-  match k with KNode => cs_node c | KEdge => cs_edge c | KFace => cs_face c end.
+  match k with KNode => cs_node c | KEdge => cs_edge c | KFace => cs_face c
+  | KFaceMean => PNone | KFaceWelzl => PLL end.
 Definition c04_scaled (c : c04_case) (k : c04_kind) : bool :=
-  match k with KNode => cs_sc_node c | KEdge => cs_sc_edge c | KFace => cs_sc_face c end.
+  match k with KNode => cs_sc_node c | KEdge => cs_sc_edge c | KFace => cs_sc_face c | _ => false end.
 Definition c04_supplied (c : c04_case) (k : c04_kind) : bool :=
   match c04_prov_of c k with PNone => false | _ => true end.
+
+(* the element kind whose dimension a family of directions lives on *)
+Definition c04_base (k : c04_kind) : c04_kind :=
+  match k with KFaceMean | KFaceWelzl => KFace | _ => k end.
 
 (* expressions: lon/lat pairs and Cartesian triples (whole arrays over one element kind) *)
 Inductive c04_ll :=
@@ -72,9 +85,9 @@ Record c04_state := {
   st_norm : bool }.
 
 Definition c04_get_ll (s : c04_state) (k : c04_kind) : option c04_ll :=
-  match k with KNode => st_nll s | KEdge => st_ell s | KFace => st_fll s end.
+  match k with KNode => st_nll s | KEdge => st_ell s | _ => st_fll s end.
 Definition c04_get_xyz (s : c04_state) (k : c04_kind) : option c04_xyz :=
-  match k with KNode => st_nxyz s | KEdge => st_exyz s | KFace => st_fxyz s end.
+  match k with KNode => st_nxyz s | KEdge => st_exyz s | _ => st_fxyz s end.
 
 Definition c04_set_ll (k : c04_kind) (v : option c04_ll) (s : c04_state) : c04_state :=
   match k with
@@ -82,7 +95,7 @@ Definition c04_set_ll (k : c04_kind) (v : option c04_ll) (s : c04_state) : c04_s
                 st_fll := st_fll s; st_fxyz := st_fxyz s; st_norm := st_norm s |}
   | KEdge => {| st_nll := st_nll s; st_nxyz := st_nxyz s; st_ell := v; st_exyz := st_exyz s;
                 st_fll := st_fll s; st_fxyz := st_fxyz s; st_norm := st_norm s |}
-  | KFace => {| st_nll := st_nll s; st_nxyz := st_nxyz s; st_ell := st_ell s; st_exyz := st_exyz s;
+  | _ => {| st_nll := st_nll s; st_nxyz := st_nxyz s; st_ell := st_ell s; st_exyz := st_exyz s;
                 st_fll := v; st_fxyz := st_fxyz s; st_norm := st_norm s |}
   end.
 Definition c04_set_xyz (k : c04_kind) (v : option c04_xyz) (s : c04_state) : c04_state :=
@@ -91,7 +104,7 @@ Definition c04_set_xyz (k : c04_kind) (v : option c04_xyz) (s : c04_state) : c04
                 st_fll := st_fll s; st_fxyz := st_fxyz s; st_norm := st_norm s |}
   | KEdge => {| st_nll := st_nll s; st_nxyz := st_nxyz s; st_ell := st_ell s; st_exyz := v;
                 st_fll := st_fll s; st_fxyz := st_fxyz s; st_norm := st_norm s |}
-  | KFace => {| st_nll := st_nll s; st_nxyz := st_nxyz s; st_ell := st_ell s; st_exyz := st_exyz s;
+  | _ => {| st_nll := st_nll s; st_nxyz := st_nxyz s; st_ell := st_ell s; st_exyz := st_exyz s;
                 st_fll := st_fll s; st_fxyz := v; st_norm := st_norm s |}
   end.
 Definition c04_set_norm (b : bool) (s : c04_state) : c04_state :=
@@ -115,7 +128,7 @@ Definition c04_init (c : c04_case) : c04_state :=
        st_exyz := src_xyz KEdge; st_fll := src_ll KFace; st_fxyz := src_xyz KFace;
        st_norm := false |}.
 
-(* the seven code sites with a known defect: false = as found, true = repaired
+(* the eight code sites with a known defect: false = as found, true = repaired
      fx_node_wrap  _populate_node_latlon wraps the derived longitudes into [-180,180)
      fx_node_after Grid.node_lon/node_lat call _set_desired_longitude_range AFTER
                    _populate_node_latlon instead of before (/repo commit f9f02c9f); either of the
@@ -123,27 +136,32 @@ Definition c04_init (c : c04_case) : c04_state :=
      fx_*_deg      _populate_{face,edge}_centroids convert stored lon/lat to radians before
                    _lonlat_rad_to_xyz
      fx_*_norm     _populate_{face,edge}_centroids call _xyz_to_lonlat_deg(normalize=True)
-     fx_*_check    the edge_x / face_x branch of _check_normalization tests its own coordinates *)
+     fx_*_check    the edge_x / face_x branch of _check_normalization tests its own coordinates
+     fx_welzl_deg  _populate_face_centerpoints converts the Welzl lon/lat (degrees) to radians before
+                   _lonlat_rad_to_xyz (/repo commit ed0eee67) *)
 Record c04_fixes := {
   fx_node_wrap : bool; fx_node_after : bool; fx_face_deg : bool; fx_edge_deg : bool;
-  fx_face_norm : bool; fx_edge_norm : bool; fx_edge_check : bool; fx_face_check : bool }.
+  fx_face_norm : bool; fx_edge_norm : bool; fx_edge_check : bool; fx_face_check : bool;
+  fx_welzl_deg : bool }.
 
 Definition c04_fixed_all : c04_fixes :=
   {| fx_node_wrap := false; fx_node_after := true; fx_face_deg := true; fx_edge_deg := true;
-     fx_face_norm := true; fx_edge_norm := true; fx_edge_check := true; fx_face_check := true |}.
+     fx_face_norm := true; fx_edge_norm := true; fx_edge_check := true; fx_face_check := true;
+     fx_welzl_deg := true |}.
 Definition c04_as_found : c04_fixes :=
   {| fx_node_wrap := false; fx_node_after := false; fx_face_deg := false; fx_edge_deg := false;
-     fx_face_norm := false; fx_edge_norm := false; fx_edge_check := false; fx_face_check := false |}.
+     fx_face_norm := false; fx_edge_norm := false; fx_edge_check := false; fx_face_check := false;
+     fx_welzl_deg := false |}.
 Definition c04_all_fixed (fx : c04_fixes) : bool :=
   (fx_node_wrap fx || fx_node_after fx) && fx_face_deg fx && fx_edge_deg fx && fx_face_norm fx &&
-  fx_edge_norm fx && fx_edge_check fx && fx_face_check fx.
+  fx_edge_norm fx && fx_edge_check fx && fx_face_check fx && fx_welzl_deg fx.
 
 Definition c04_fx_deg (fx : c04_fixes) (k : c04_kind) : bool :=
-  match k with KFace => fx_face_deg fx | KEdge => fx_edge_deg fx | KNode => true end.
+  match k with KFace => fx_face_deg fx | KEdge => fx_edge_deg fx | _ => true end.
 Definition c04_fx_norm (fx : c04_fixes) (k : c04_kind) : bool :=
-  match k with KFace => fx_face_norm fx | KEdge => fx_edge_norm fx | KNode => true end.
+  match k with KFace => fx_face_norm fx | KEdge => fx_edge_norm fx | _ => true end.
 Definition c04_fx_check (fx : c04_fixes) (k : c04_kind) : bool :=
-  match k with KFace => fx_face_check fx | KEdge => fx_edge_check fx | KNode => true end.
+  match k with KFace => fx_face_check fx | KEdge => fx_edge_check fx | _ => true end.
 
 (* reading a group that must exist (the totalising default is never reached from a
    well-formed source; statements carry that hypothesis) *)
@@ -228,7 +246,29 @@ Definition c04_normalize (fx : c04_fixes) (c : c04_case) (s : c04_state) : c04_s
 
 (* operations of a history: first (or repeated) access of a coordinate group, or normalisation.
    node_lon/node_lat share one code path, likewise the other five groups. *)
-Inductive c04_op := OGetLL (k : c04_kind) | OGetXYZ (k : c04_kind) | ONormalize.
+Inductive c04_op := OGetLL (k : c04_kind) | OGetXYZ (k : c04_kind) | ONormalize
+                  | OWelzl | OCartAvg | ONop.
+
+(* Grid.construct_face_centers("welzl") = _populate_face_centerpoints(repopulate=True): reads
+   grid.node_lon/node_lat (getter), takes the routine's lon/lat (degrees) and stores them and their
+   Cartesian image; no range fix *)
+Definition c04_welzl (fx : c04_fixes) (s0 : c04_state) : c04_state :=
+  let s := c04_get_node_ll fx s0 in
+  let l := LSrc KFaceWelzl in
+  let x := XOfLL (if fx_welzl_deg fx then LDeg2Rad l else l) in
+  c04_set_xyz KFace (Some x) (c04_set_ll KFace (Some l) s).
+
+(* Grid.construct_face_centers("cartesian average") = _populate_face_centroids(repopulate=True):
+   stored Cartesian centres are KEPT (only absent ones are constructed from the nodes); lon/lat are
+   re-derived from them; both groups are stored again *)
+Definition c04_cart_avg (fx : c04_fixes) (s0 : c04_state) : c04_state :=
+  let s := c04_ensure_node_xyz s0 in
+  let c := match st_fxyz s with
+           | None => XNorm (XMean KFaceMean (c04_the_xyz s KNode))
+           | Some x => x
+           end in
+  let l := LWrap (LRad2Deg (LOfXyz (fx_face_norm fx) c)) in
+  c04_set_xyz KFace (Some c) (c04_set_ll KFace (Some l) s).
 
 Definition c04_step (fx : c04_fixes) (c : c04_case) (s : c04_state) (o : c04_op) : c04_state :=
   match o with
@@ -244,12 +284,16 @@ Definition c04_step (fx : c04_fixes) (c : c04_case) (s : c04_state) (o : c04_op)
                      | Some _ => s
                      | None => c04_populate_centroids fx KEdge s
                      end)
+  | OGetLL KFaceMean | OGetLL KFaceWelzl | OGetXYZ KFaceMean | OGetXYZ KFaceWelzl => s
   | OGetXYZ k =>
       match c04_get_xyz s k with
       | Some _ => s
       | None => c04_populate_centroids fx k s
       end
   | ONormalize => c04_normalize fx c s
+  | OWelzl => c04_welzl fx s
+  | OCartAvg => c04_cart_avg fx s
+  | ONop => s
   end.
 
 Definition c04_run (fx : c04_fixes) (c : c04_case) (ops : list c04_op) : c04_state :=
@@ -276,10 +320,13 @@ Inductive c04_xyztag :=
 
 Fixpoint c04_ty_ll (c : c04_case) (e : c04_ll) : option c04_lltag :=
   match e with
+  | LSrc KFaceWelzl => Some (TDegStd KFaceWelzl)      (* the routine's own output, in range *)
   | LSrc k => if c04_has_ll (c04_prov_of c k) then Some (TDegWide k) else None
   | LCondWrap k l =>
+      (* the range fix of variable k_lon applies to whatever family of centres is stored there *)
       match c04_ty_ll c l with
-      | Some (TDegStd k') | Some (TDegWide k') => if c04_kind_eqb k k' then Some (TDegStd k) else None
+      | Some (TDegStd k') | Some (TDegWide k') =>
+          if c04_kind_eqb (c04_base k) (c04_base k') then Some (TDegStd k') else None
       | _ => None
       end
   | LWrap l =>
@@ -343,15 +390,27 @@ Definition c04_xyz_unit_ok (c : c04_case) (k : c04_kind) (e : c04_xyz) : bool :=
 Definition c04_opt {A} (f : A -> bool) (o : option A) : bool :=
   match o with Some a => f a | None => true end.
 
+(* the face centres a Grid holds belong to one of three families (the source's / derived ones, or
+   one installed by construct_face_centers); lon/lat and Cartesian must be of the SAME family *)
+Definition c04_is_face_fam (k : c04_kind) : bool :=
+  match k with KFace | KFaceMean | KFaceWelzl => true | _ => false end.
+
+Definition c04_face_ok (c : c04_case) (ol : option c04_ll) (ox : option c04_xyz) (F : c04_kind) : bool :=
+  c04_is_face_fam F && c04_opt (c04_ll_ok c F) ol && c04_opt (c04_xyz_ok c F) ox.
+Definition c04_face_unit_ok (c : c04_case) (ox : option c04_xyz) : bool :=
+  c04_opt (c04_xyz_unit_ok c KFace) ox || c04_opt (c04_xyz_unit_ok c KFaceMean) ox
+  || c04_opt (c04_xyz_unit_ok c KFaceWelzl) ox.
+
 Definition c04_state_ok (c : c04_case) (s : c04_state) : bool :=
   c04_opt (c04_ll_ok c KNode) (st_nll s) && c04_opt (c04_xyz_ok c KNode) (st_nxyz s) &&
   c04_opt (c04_ll_ok c KEdge) (st_ell s) && c04_opt (c04_xyz_ok c KEdge) (st_exyz s) &&
-  c04_opt (c04_ll_ok c KFace) (st_fll s) && c04_opt (c04_xyz_ok c KFace) (st_fxyz s).
+  (c04_face_ok c (st_fll s) (st_fxyz s) KFace || c04_face_ok c (st_fll s) (st_fxyz s) KFaceMean
+   || c04_face_ok c (st_fll s) (st_fxyz s) KFaceWelzl).
 
 (* after normalize_cartesian_coordinates every Cartesian group present has unit length *)
 Definition c04_state_unit (c : c04_case) (s : c04_state) : bool :=
   c04_opt (c04_xyz_unit_ok c KNode) (st_nxyz s) && c04_opt (c04_xyz_unit_ok c KEdge) (st_exyz s) &&
-  c04_opt (c04_xyz_unit_ok c KFace) (st_fxyz s).
+  c04_face_unit_ok c (st_fxyz s).
 
 (* a well-formed source: nodes supplied in at least one system; scaling only of supplied xyz *)
 Definition c04_wf_case (c : c04_case) : bool :=
@@ -361,7 +420,8 @@ Definition c04_wf_case (c : c04_case) : bool :=
   (c04_has_xyz (cs_face c) || negb (cs_sc_face c)).
 
 (* ---- flat integer encoding (prefix code) for the driver and the in-kernel audit ---- *)
-Definition c04_kind_code (k : c04_kind) : Z := match k with KNode => 0 | KEdge => 1 | KFace => 2 end.
+Definition c04_kind_code (k : c04_kind) : Z :=
+  match k with KNode => 0 | KEdge => 1 | KFace => 2 | KFaceMean => 3 | KFaceWelzl => 4 end.
 
 Fixpoint c04_enc_ll (e : c04_ll) : list Z :=
   match e with
@@ -392,19 +452,25 @@ Definition c04_enc_state (c : c04_case) (s : c04_state) : list (list Z) :=
     c04_enc_oxyz (st_exyz s); c04_enc_oll (st_fll s); c04_enc_oxyz (st_fxyz s);
     [ c04_b2z (c04_opt (c04_ll_ok c KNode) (st_nll s)); c04_b2z (c04_opt (c04_xyz_ok c KNode) (st_nxyz s));
       c04_b2z (c04_opt (c04_ll_ok c KEdge) (st_ell s)); c04_b2z (c04_opt (c04_xyz_ok c KEdge) (st_exyz s));
-      c04_b2z (c04_opt (c04_ll_ok c KFace) (st_fll s)); c04_b2z (c04_opt (c04_xyz_ok c KFace) (st_fxyz s)) ];
+      c04_b2z (c04_face_ok c (st_fll s) None KFace || c04_face_ok c (st_fll s) None KFaceMean
+               || c04_face_ok c (st_fll s) None KFaceWelzl);
+      c04_b2z (c04_face_ok c (st_fll s) (st_fxyz s) KFace || c04_face_ok c (st_fll s) (st_fxyz s) KFaceMean
+               || c04_face_ok c (st_fll s) (st_fxyz s) KFaceWelzl) ];
     [ c04_b2z (c04_opt (c04_xyz_unit_ok c KNode) (st_nxyz s));
       c04_b2z (c04_opt (c04_xyz_unit_ok c KEdge) (st_exyz s));
-      c04_b2z (c04_opt (c04_xyz_unit_ok c KFace) (st_fxyz s)) ];
+      c04_b2z (c04_face_unit_ok c (st_fxyz s)) ];
     [ c04_b2z (st_norm s) ] ].
 
 Definition c04_prov_of_code (z : Z) : c04_prov :=
   if z =? 1 then PLL else if z =? 2 then PXYZ else if z =? 3 then PBoth else PNone.
 Definition c04_kind_of_code (z : Z) : c04_kind :=
   if z =? 1 then KEdge else if z =? 2 then KFace else KNode.
-(* op codes: 0,1,2 = lon/lat of node,edge,face; 3,4,5 = xyz of node,edge,face; 6 = normalise *)
+(* op codes: 0,1,2 = lon/lat of node,edge,face; 3,4,5 = xyz of node,edge,face; 6 = normalise;
+   7 = construct_face_centers("welzl"); 8 = construct_face_centers("cartesian average");
+   9 = a setter re-assigning a group its current values *)
 Definition c04_op_of_code (z : Z) : c04_op :=
-  if z =? 6 then ONormalize else if z <? 3 then OGetLL (c04_kind_of_code z)
+  if z =? 6 then ONormalize else if z =? 7 then OWelzl else if z =? 8 then OCartAvg else if z =? 9 then ONop
+  else if z <? 3 then OGetLL (c04_kind_of_code z)
   else OGetXYZ (c04_kind_of_code (z - 3)).
 Definition c04_case_of_codes (l : list Z) : c04_case :=
   {| cs_node := c04_prov_of_code (nth 0 l 0); cs_edge := c04_prov_of_code (nth 1 l 0);
@@ -415,7 +481,8 @@ Definition c04_case_of_codes (l : list Z) : c04_case :=
 Definition c04_fixes_of_codes (l : list Z) : c04_fixes :=
   let b i := negb (nth i l 0 =? 0) in
   {| fx_node_wrap := b 0%nat; fx_node_after := b 1%nat; fx_face_deg := b 2%nat; fx_edge_deg := b 3%nat;
-     fx_face_norm := b 4%nat; fx_edge_norm := b 5%nat; fx_edge_check := b 6%nat; fx_face_check := b 7%nat |}.
+     fx_face_norm := b 4%nat; fx_edge_norm := b 5%nat; fx_edge_check := b 6%nat; fx_face_check := b 7%nat;
+     fx_welzl_deg := b 8%nat |}.
 
 (* driver entry: variant codes, case codes, op codes -> initial state followed by the state after
    every op *)
